@@ -577,10 +577,12 @@ impl Xot {
     }
 
     /// Iterator over the child nodes of this node, in reverse order.
+    #[allow(deprecated)]
     pub fn reverse_children(&self, node: Node) -> impl Iterator<Item = Node> + '_ {
+        // walk last child / previous sibling: `children().rev()` relies on
+        // indextree's `Children::next_back`, which never advances
         node.get()
-            .children(self.arena())
-            .rev()
+            .reverse_children(self.arena())
             .take_while(|n| self.arena[*n].get().is_normal())
             .map(Node::new)
     }
